@@ -15,8 +15,10 @@ def rows_str(rows):
 
 
 def encoding_known(v):
+    """the name of a codec that can be used for text (the codec registry is a parameter of the model)"""
     try:
         codecs.lookup(v)
+        "".encode(v)
         return True
     except Exception:  # noqa
         return False
